@@ -244,6 +244,8 @@ class Inliner:
             return False
         if fi.fq in self.renamed:
             return False  # a known unit under a new name
+        if fi.fq in self.__dict__.get("lowered", ()):
+            return False  # a method object written back as the function it stands for: a unit of its own
         return True
 
     def inlinable_def(self, fi) -> Optional[str]:
@@ -294,6 +296,7 @@ class Inliner:
         P = self.P
         total = 0
         self._find_renamed()
+        self._late = False
         total += self._object_pass()
         for _ in range(MAX_ROUNDS):
             new = {fi.fq: fi for fi in P.funcs.values() if self.is_new(fi)}
@@ -313,7 +316,9 @@ class Inliner:
                 break
             self.waiting = 0
             P._reindex()
-        # objects whose construction only became visible by reading a factory (`offer = Offer.build(…)` → `offer = Offer(…)`)
+        # objects whose construction only became visible by reading a factory (`offer = Offer.build(…)` → `offer = Offer(…)`),
+        # and objects made for one method call (left for now so that the method's own helpers were read first)
+        self._late = True
         if self._object_pass():
             total += 1
             for _ in range(MAX_ROUNDS):
@@ -388,6 +393,15 @@ class Inliner:
                 continue
             methods = {f.name: f for f in self.P.funcs.values() if f.cls is ci and f.parent is None}
             props = {m: f for m, f in methods.items() if any(ast.unparse(d) == "property" for d in f.node.decorator_list)}
+            single = self._single_method_call(fn, v, methods, props) if len(defs) == 1 else None
+            if single is not None:
+                if not self._late:
+                    continue  # decided after the method's own helpers were read
+                mname = single.func.attr
+                if self._lower_method_object(caller, v, stmt, ci, methods, single):
+                    self.inlined.append(f"{ci.module.name}:{ci.name}.{mname} (method object `{v}`) as a function for {caller.fq}")
+                    done += 1
+                    continue
             work = copy.deepcopy(fn)
             # the copy's own constructor statements
             texts = {ast.unparse(s_) for s_, _c in defs}
@@ -406,6 +420,168 @@ class Inliner:
             self.inlined.append(f"{ci.module.name}:{ci.name} (local object `{v}`) into {caller.fq}")
             done += 1
         return done
+
+    def _single_method_call(self, fn, v, methods, props):
+        """The call `v.m(…)` when that is the only thing the function does with `v`, else None."""
+        loads = [x for x in _own(fn) if isinstance(x, ast.Name) and x.id == v and isinstance(x.ctx, ast.Load)]
+        if len(loads) != 1:
+            return None
+        for x in _own(fn):
+            if isinstance(x, ast.Call) and isinstance(x.func, ast.Attribute) and x.func.value is loads[0] and x.func.attr in methods and x.func.attr not in props and not x.func.attr.startswith("__"):
+                return x
+        return None
+
+    def _lower_method_object(self, caller, v, stmt, ci, methods, call) -> bool:
+        """`v = C(a, b); … v.m(x)` with C a new class whose constructor only stores its arguments and whose fields nobody
+        rebinds: the object is one function call spread over two statements.  Written back as that function —
+        `C_m(a, b, x)` with every `self.f` in m's body replaced by the constructor parameter it was stored from — so that
+        the unit boundaries are those of the reference decomposition (`_await_response(read_stream, req_id, …)` turned into a
+        `_PendingRequest(read_stream, req_id, …).wait()` reads as before)."""
+        fn = caller.node
+        m = methods[call.func.attr]
+        init = methods.get("__init__")
+        if init is None or m.node.decorator_list or init.node.decorator_list or self.inlinable_def_init(init) is not None:
+            return False
+        if m.node.args.vararg or m.node.args.kwarg or m.node.args.kwonlyargs or m.node.args.posonlyargs or init.node.args.posonlyargs:
+            return False
+        ia = init.node.args
+        me = ia.args[0].arg
+        iparams = [a.arg for a in ia.args[1:]] + [a.arg for a in ia.kwonlyargs]
+        fields: Dict[str, ast.AST] = {}
+        for st in init.node.body:
+            if isinstance(st, ast.Expr) and isinstance(st.value, ast.Constant):
+                continue
+            if isinstance(st, ast.Pass):
+                continue
+            tgt = val = None
+            if isinstance(st, ast.Assign) and len(st.targets) == 1:
+                tgt, val = st.targets[0], st.value
+            elif isinstance(st, ast.AnnAssign) and st.value is not None:
+                tgt, val = st.target, st.value
+            if not (isinstance(tgt, ast.Attribute) and isinstance(tgt.value, ast.Name) and tgt.value.id == me and tgt.attr not in fields):
+                return False
+            if not (isinstance(val, ast.Constant) or (isinstance(val, ast.Name) and val.id in iparams)):
+                return False
+            fields[tgt.attr] = val
+        # nobody else stores a field, and m uses `self` for its fields only
+        for g in methods.values():
+            if g is init or not g.node.args.args:
+                continue
+            gme = g.node.args.args[0].arg
+            for x in ast.walk(g.node):
+                if isinstance(x, ast.Attribute) and isinstance(x.value, ast.Name) and x.value.id == gme and not isinstance(x.ctx, ast.Load):
+                    return False
+        mme = m.node.args.args[0].arg if m.node.args.args else None
+        if mme is None:
+            return False
+        parents = {}
+        for x in ast.walk(m.node):
+            for c in ast.iter_child_nodes(x):
+                parents[id(c)] = x
+        for x in ast.walk(m.node):
+            if isinstance(x, ast.Name) and x.id == mme:
+                par = parents.get(id(x))
+                if not (isinstance(par, ast.Attribute) and par.value is x and par.attr in fields and isinstance(par.ctx, ast.Load)):
+                    return False
+            if isinstance(x, ast.arg) and x.arg == mme and x is not m.node.args.args[0]:
+                return False
+        # parameter list: the constructor's, then the method's
+        mparams = [a.arg for a in m.node.args.args[1:]]
+        used = {x.id for x in ast.walk(m.node) if isinstance(x, ast.Name)} | set(mparams)
+        pname = {p: (p if p not in used else f"{p}_0") for p in iparams}
+        if len(set(pname.values()) | set(mparams)) != len(pname) + len(mparams):
+            return False
+        n_idef, n_mdef = len(ia.defaults), len(m.node.args.defaults)
+        if n_idef and n_mdef < len(mparams):
+            return False  # a required parameter would follow an optional one
+        new_args = ast.arguments(
+            posonlyargs=[], args=[ast.arg(arg=pname[a.arg], annotation=None) for a in ia.args[1:]] + [ast.arg(arg=a.arg, annotation=None) for a in m.node.args.args[1:]],
+            vararg=None, kwonlyargs=[ast.arg(arg=pname[a.arg], annotation=None) for a in ia.kwonlyargs], kw_defaults=[copy.deepcopy(d) for d in ia.kw_defaults], kwarg=None,
+            defaults=[copy.deepcopy(d) for d in ia.defaults] + [copy.deepcopy(d) for d in m.node.args.defaults])
+
+        class FS(ast.NodeTransformer):
+            def visit_Attribute(self_, node):
+                self_.generic_visit(node)
+                if isinstance(node.value, ast.Name) and node.value.id == mme and node.attr in fields:
+                    src = fields[node.attr]
+                    new = ast.Name(id=pname[src.id], ctx=ast.Load()) if isinstance(src, ast.Name) else copy.deepcopy(src)
+                    return ast.copy_location(new, node)
+                return node
+
+        body = [FS().visit(copy.deepcopy(x)) for x in m.node.body]
+        fname = f"_{ci.name.strip('_')}_{m.name.strip('_')}"
+        if any(f.name == fname for f in self.P.funcs.values()) or fname in ci.module.imports:
+            return False
+        cls_ = ast.AsyncFunctionDef if isinstance(m.node, ast.AsyncFunctionDef) else ast.FunctionDef
+        new_def = cls_(name=fname, args=new_args, body=body, decorator_list=[], returns=None, type_comment=None)
+        try:
+            new_def.type_params = []
+        except Exception:
+            pass
+        ast.copy_location(new_def, m.node)
+        # the call site: constructor arguments (evaluated where the constructor stood), then the call's own
+        ctor = stmt.value
+        if any(isinstance(a, ast.Starred) for a in ctor.args + call.args) or any(k.arg is None for k in ctor.keywords + call.keywords):
+            return False
+        if len(ctor.args) > len(ia.args) - 1 or len(call.args) > len(mparams):
+            return False
+        pre: List[ast.stmt] = []
+        kw: List[ast.keyword] = []
+
+        def stable(a):
+            if isinstance(a, ast.Constant):
+                return True
+            if isinstance(a, ast.Name):
+                stores = sum(1 for x in _own(fn) if isinstance(x, ast.Name) and x.id == a.id and isinstance(x.ctx, ast.Store))
+                is_param = a.id in {p.arg for p in fn.args.args + fn.args.kwonlyargs + fn.args.posonlyargs}
+                nested_def = any(_is_func(x) and x.name == a.id for x in _own(fn))
+                return (is_param and stores == 0) or (not is_param and stores == 1) or nested_def
+            return False
+
+        def arg_for(pn, a):
+            if stable(a):
+                return copy.deepcopy(a)
+            tmp = f"{v}__{pn}"
+            pre.append(ast.copy_location(ast.Assign(targets=[ast.Name(id=tmp, ctx=ast.Store())], value=copy.deepcopy(a), type_comment=None), stmt))
+            return ast.Name(id=tmp, ctx=ast.Load())
+
+        pos_names = [a.arg for a in ia.args[1:]]
+        seen = set()
+        for pn, a in zip(pos_names, ctor.args):
+            kw.append(ast.keyword(arg=pname[pn], value=arg_for(pn, a)))
+            seen.add(pn)
+        for k in ctor.keywords:
+            if k.arg not in iparams or k.arg in seen:
+                return False
+            kw.append(ast.keyword(arg=pname[k.arg], value=arg_for(k.arg, k.value)))
+            seen.add(k.arg)
+        for pn, a in zip(mparams, call.args):
+            kw.append(ast.keyword(arg=pn, value=a))
+        for k in call.keywords:
+            if k.arg not in mparams:
+                return False
+            kw.append(ast.keyword(arg=k.arg, value=k.value))
+        # commit: the constructor statement gives way to the argument temporaries, the call names the function
+        for holder, field in self._stmt_lists(fn):
+            lst = getattr(holder, field)
+            if stmt in lst:
+                i = lst.index(stmt)
+                lst[i:i + 1] = pre or [ast.copy_location(ast.Pass(), stmt)]
+                break
+        else:
+            return False
+        call.func = ast.copy_location(ast.Name(id=fname, ctx=ast.Load()), call.func)
+        call.args = []
+        call.keywords = kw
+        ci.module.tree.body.append(new_def)
+        if caller.module is not ci.module:
+            imp = ast.ImportFrom(module=ci.module.name, names=[ast.alias(name=fname, asname=None)], level=0)
+            caller.module.tree.body.insert(0, imp)
+            ast.fix_missing_locations(caller.module.tree)
+        ast.fix_missing_locations(ci.module.tree)
+        ast.fix_missing_locations(fn)
+        self.__dict__.setdefault("lowered", set()).add(f"{ci.module.name}:{fname}")
+        return True
 
     def _inline_object_uses(self, caller, work, wstmts, v, ci, methods, props) -> bool:
         from .model import FuncInfo
@@ -475,8 +651,8 @@ class Inliner:
                 if not (isinstance(par, ast.Attribute) and par.value is x):
                     return False
                 gp = parents.get(id(par))
-                if isinstance(gp, ast.Call) and gp.func is par:
-                    return False  # a method call that could not be read at its site
+                if isinstance(gp, ast.Call) and gp.func is par and (par.attr in methods or par.attr.startswith("__")):
+                    return False  # a method call that could not be read at its site (calling a stored callable — `v.on_done()` with on_done a field — is a plain call of that local)
         # 5. `v.attr` → `v__attr`
         class SC(ast.NodeTransformer):
             def visit_Attribute(self_, node):
